@@ -151,6 +151,8 @@ def run(ctx, tier, res, tag=''):
                             res.sample({'family': fa['name'], 'field': fl['default'], 'views': [a['fmt'], b['fmt']],
                                         'read_result': B.fmt_vec(a['get'][0][1], 64).replace('0 ', ''),
                                         'octets_written': sorted(a['set'][0][1])})
+    from .. import promises
+    promises.report(ctx, res, FC.accessor_functions(ctx, 'all'), promises.MEMORY_KINDS, tag)
     res.rule = ('for every family of spec/families.json, every shared field and every pair of views: the measured closed form of '
                 'the by-identifier read, the measured effect of the by-identifier write, the dedicated getters and the dedicated setters (same parameter width) must be identical')
     res.extra['exhaustive'] = True
